@@ -32,7 +32,7 @@ class ResultGetPictureIqProtocolEntity(PictureIqProtocolEntity):
 
     def toProtocolTreeNode(self):
         node = super(ResultGetPictureIqProtocolEntity, self).toProtocolTreeNode()
-        pictureNode = ProtocolTreeNode({"type": "preview" if self.isPreview() else "image" }, data = self.getPictureData())
+        pictureNode = ProtocolTreeNode("picture", {"type": "preview" if self.isPreview() else "image", "id": self.getPictureId()}, data = self.getPictureData())
         node.addChild(pictureNode)
         return node
 
